@@ -91,25 +91,12 @@ pub const RESERVED: [&[u8]; 21] = [
 ];
 
 pub fn is_reserved(s: &[u8]) -> bool {
-    let mut k = 0;
-    while k < RESERVED.len() {
-        let w = RESERVED[k];
-        if w.len() == s.len() {
-            let mut same = true;
-            let mut i = 0;
-            while i < w.len() {
-                if w[i] != s[i] {
-                    same = false;
-                }
-                i += 1;
-            }
-            if same {
-                return true;
-            }
-        }
-        k += 1;
-    }
-    false
+    matches!(
+        s,
+        b"and" | b"break" | b"do" | b"else" | b"elseif" | b"end" | b"false" | b"for" | b"function"
+            | b"if" | b"in" | b"local" | b"nil" | b"not" | b"or" | b"repeat" | b"return" | b"then"
+            | b"true" | b"until" | b"while"
+    )
 }
 
 /// R-COMMENT: does a comment text starting with `--` open a *long* comment
